@@ -96,6 +96,43 @@ class CrossRootHistories:
         return {"canon": hist, "viols": viols, "label": "violation" if viols else "child-ok"}
 
 
+SN_OPS = [["ckd", 0], ["ckd", 1], ["ckd", 5], ["children", 0, 2], ["children", 1, 3], ["path", 0, 1]]
+
+
+class SameNodeHistories:
+    """repeated requests on ONE public node object (and its private twin): each answer must be the reference child,
+    whatever was derived from the same node before. canon = the history."""
+
+    def ops(self, hist):
+        return SN_OPS
+
+    def run(self, hist):
+        root = XROOTS[4]
+        pub = hdscen.impl_root(pub_root(root))
+        prv = hdscen.impl_root(root)
+        refp = hdscen.ref_root(pub_root(root))
+        viols, label = [], "init"
+        for n, op in enumerate(hist):
+            if op[0] == "ckd":
+                f = lambda node: [hdscen.canon_impl_node(node.ckd(op[1]))]
+                exp = [hdscen.canon_ref_node(hd.derive(refp, [op[1]]))]
+            elif op[0] == "children":
+                f = lambda node: [hdscen.canon_impl_node(c) for c in node.generate_children((op[1], op[2]))]
+                exp = [hdscen.canon_ref_node(hd.derive(refp, [i])) for i in range(op[1], op[2])]
+            else:
+                f = lambda node: [hdscen.canon_impl_node(node.derive_path(list(op[1:])))]
+                exp = [hdscen.canon_ref_node(hd.derive(refp, list(op[1:])))]
+            a = attempt(f, pub)
+            b = attempt(f, prv)
+            if n == len(hist) - 1:
+                if a[0] != "ok" or a[1] != exp:
+                    viols.append(V(P + ":same-node-history:public:wrong-node", "after %r on the same public node, %r gives %r" % (hist[:-1], op, str(a[1])[:120]), None, exp))
+                if b[0] != "ok" or [x[2:] for x in b[1]] != [x[2:] for x in exp]:
+                    viols.append(V(P + ":same-node-history:private:wrong-node", "after %r on the same private node, %r differs from the reference" % (hist[:-1], op)))
+                label = "violation" if viols else "child-ok"
+        return {"canon": hist, "viols": viols, "label": label}
+
+
 def chk_corner(root, i, il_spec):
     rr = hdscen.ref_priv_shadow(root)
     data = secp.sec(rr.K) + i.to_bytes(4, "big")
@@ -161,7 +198,8 @@ def execute(case):
         o, nt, vs = chk_refusal(case["root"], case["form"], case["arg"])
     elif "hist" in case and "model" not in case and k is None:
         from ..core import isolated
-        r = isolated(CrossRootHistories().run, case["hist"])
+        model = SameNodeHistories() if case.get("layer") == "same-node-histories" else CrossRootHistories()
+        r = isolated(model.run, case["hist"])
         o, nt, vs = r["label"], True, r["viols"]
         for v in vs:
             v["case"] = case
@@ -207,6 +245,7 @@ def run(ctx):
         if "history" in smp and smp["layer"].startswith("pair-tree-root"):
             smp["model"] = {"root": roots[int(smp["layer"].replace("pair-tree-root", ""))], "alphabet": alpha}
     bfs(ctx, "cross-root-histories", CrossRootHistories(), 3 if ctx.thorough else 2)
+    bfs(ctx, "same-node-histories", SameNodeHistories(), 3 if ctx.thorough else 2)
     corners = [("il", 1), ("il", 2), ("kpar", 0), ("il", N - 1), ("child", N - 1), ("child", 1), ("il", 2**255), ("child", 2), ("il", N - 2)]
     cases = [{"k": "corner", "root": root, "i": i, "il": list(c)} for root in roots for i in (0, H - 1, alpha[3]) for c in corners]
     ctx.product("prf-corners", cases, execute)
